@@ -25,7 +25,7 @@ def do_history(ops, ode_from_string):
             k = op["op"]
             if k == "load_generate":
                 o = ode_from_string(op["text"])
-                gotran2py.get_code(o, format=PF.none, scheme=[Scheme(s) for s in op.get("schemes", [])] or None)
+                gotran2py.get_code(o, format=PF.none, scheme=[Scheme(s) for s in op.get("schemes", [])] or None, stiff_states=[s.name for s in o.states][:1])
                 if op.get("c"):
                     gotran2c.get_code(o, format=CF.none)
             elif k == "get_scheme":
